@@ -62,6 +62,9 @@ class EnvRecorder:
             wrap(c, 'Heff1', lambda s, A, n: ['heff1', int(n)])
             wrap(c, 'Heff2', lambda s, AA, bd: ['heff2', int(min(bd)), int(max(bd))])
             wrap(c, 'Heff0', lambda s, C, bd: ['heff0', int(min(bd)), int(max(bd))])
+            # variational compression reads the same two entries through the projections of the ket on the bra
+            wrap(c, 'project_ket_on_bra_1', lambda s, n: ['heff1', int(n)])
+            wrap(c, 'project_ket_on_bra_2', lambda s, bd: ['heff2', int(min(bd)), int(max(bd))])
             wrap(c, 'measure', lambda s, bd=(-1, 0): ['measure', int(min(bd)), int(max(bd))])
         # enlarge_bond decisions (EnvParent and Env_sum)
         for c in classes:
